@@ -4,7 +4,7 @@
 
    Trusted, not modelled: the Go scheduler and memory model (an Unlock happens-before the next Lock
    that observes it, so a section sees every write of the sections that precede it), writer
-   preference / fairness of sync.RWMutex (liveness only).  The model admits MORE interleavings than
+   preference / fairness of sync.RWMutex (liveness only).  The model allows MORE interleavings than
    the runtime: any thread may take the lock whenever it is compatible. *)
 From Coq Require Import List Arith Bool Lia.
 Import ListNotations.
